@@ -200,6 +200,11 @@ def run(ctx):
                                 txt = "S%s" % str(v).replace("-", "m")
                                 if v == emit and rng.random() < 0.5:
                                     txt = "."
+                                elif rng.random() < 0.25 and abs(v - emit) < 30000:
+                                    # the target written relative to the statement: '.' is the address of the instruction in
+                                    # every operand, whatever stood before it
+                                    dd = v - emit
+                                    txt = ". + %s" % num(dd, rng) if dd >= 0 else ". - %s" % num(-dd, rng)
                                 parts.append(("@" if op[0] == "W" else "") + txt)
                             else:
                                 from .insnrun import render_operand
